@@ -276,7 +276,7 @@ def resolve_option(p: PPoint, name, levels):
 # ---------------------------------------------------------------------------------------------
 # verification
 # ---------------------------------------------------------------------------------------------
-def verify_to_dict(cls, fn_ast, namespace, p: PPoint, levels, passed, timeout_ms=10000, view_factory=None, inline=None):
+def verify_to_dict(cls, fn_ast, namespace, p: PPoint, levels, passed, timeout_ms=10000, view_factory=None, inline=None, unwrap=None, hooks=None):
     """levels: the option levels in effect for this unit in precedence order;
     passed: frozenset of flag parameter names given by the caller (others take their defaults)"""
     eng = pysym.Engine()
@@ -291,7 +291,29 @@ def verify_to_dict(cls, fn_ast, namespace, p: PPoint, levels, passed, timeout_ms
             return Tm(f(self_c))
         return None
 
-    ex = pysym.Executor(eng, namespace, hooks={"tm_attr": tm_attr})
+    import inspect as _inspect
+
+    fieldnames = {f.name for f in dataclasses.fields(cls)}
+
+    def self_method(ex, recv, name, args, kw, node, st, ctx):
+        """self.<helper installed on the class>(...): custom serialization functions"""
+        if not (isinstance(recv, Tm) and z3.eq(recv.t, self_c)) or name in ex.inline or name in fieldnames:
+            return None
+        if name.startswith("__mashumaro_"):
+            return None
+        try:
+            raw = _inspect.getattr_static(cls, name)
+        except AttributeError:
+            return None
+        if isinstance(raw, staticmethod):
+            return ex.call(Ob(raw.__func__), list(args), list(kw), node, st, ctx)
+        if _inspect.isfunction(raw):
+            return ex.call(Ob(raw), [recv] + list(args), list(kw), node, st, ctx)
+        return None
+
+    hk = {"tm_attr": tm_attr, "method_call": self_method}
+    hk.update(hooks or {})
+    ex = pysym.Executor(eng, namespace, hooks=hk)
     if inline:
         ex.inline = inline
     spec_hyps = []
@@ -300,6 +322,9 @@ def verify_to_dict(cls, fn_ast, namespace, p: PPoint, levels, passed, timeout_ms
     ex.nonraising.add(("meth", "copy"))
     ex.nonraising.add(("meth", "_serialize"))
     ex.nonraising.add(("meth", "__mashumaro_to_dict__"))
+    ex.nonraising_prefixes = ("__mashumaro_to_dict",)
+    if unwrap is not None and getattr(unwrap, "encoder", None) is not None:
+        ex.nonraising.add(_const_key(unwrap.encoder))  # A8: the format encoder is outside the claim
     ex.nonraising.add(_const_key(math.isnan))
     params = [a.arg for a in fn_ast.args.args] + [a.arg for a in fn_ast.args.kwonlyargs]
     args = {"self": Tm(self_c)}
@@ -310,7 +335,7 @@ def verify_to_dict(cls, fn_ast, namespace, p: PPoint, levels, passed, timeout_ms
             args[name] = Tm(c)
             flagvals[name] = c
     if "dialect" in params:
-        args["dialect"] = Ob(None)
+        args["dialect"] = Ob(getattr(p, "dialect_value", None))
     pre = [eng.typeof(self_c) == eng.const(cls)]
     # conforming instance: whatever a packer iterates is iterable
     _v = z3.Const("v!iter", eng.V)
@@ -322,6 +347,13 @@ def verify_to_dict(cls, fn_ast, namespace, p: PPoint, levels, passed, timeout_ms
         if not fv.nullable:
             pre.append(a != eng.const(None))
     paths = ex.run(fn_ast, args, pc=pre)
+    if unwrap is not None:
+        # format methods: the result must be encoder(<mapping>, <declared encoder kwargs>)
+        for path in paths:
+            if path.kind == "return":
+                path.value, prob = unwrap(path.value, path, eng)
+                if prob:
+                    path.unwrap_problem = prob
     # --- effective options
     myflags = class_flags(cls)
     from mashumaro.config import TO_DICT_ADD_BY_ALIAS_FLAG, TO_DICT_ADD_OMIT_NONE_FLAG, ADD_SERIALIZATION_CONTEXT, ADD_DIALECT_SUPPORT
@@ -404,7 +436,11 @@ def verify_to_dict(cls, fn_ast, namespace, p: PPoint, levels, passed, timeout_ms
     verdicts = []
     for i, path in enumerate(paths):
         detail = list(problems)
-        goal = outcome_goal(eng, path, entries, detail, spec_raises) if not problems else z3.BoolVal(False)
+        if getattr(path, "unwrap_problem", None):
+            detail.append(path.unwrap_problem)
+            goal = z3.BoolVal(False)
+        else:
+            goal = outcome_goal(eng, path, entries, detail, spec_raises) if not problems else z3.BoolVal(False)
         v = prover.prove(f"path{i}", path.pc, goal)
         v.path = path
         v.detail = (v.detail + " " + "; ".join(sorted(set(detail)))).strip()
